@@ -54,3 +54,25 @@ Example C11_example :
   call_builtin (bs "slice") (VArr [VInt 1; VInt 2; VInt 3; VInt 4]) [VInt 1; VInt 3] = Some (BOk (VArr [VInt 2; VInt 3])) /\
   builtin_spec (VStr (bs "abc")) (bs "at") [VInt (-1)] = SVal (VStr (bs "c")).
 Proof. split; reflexivity. Qed.
+
+(* ---- valid UTF-8 out, for the built-ins that work on characters, for ANY receiver bytes:
+   decoding any byte string yields Unicode scalar values only, encoding scalar values and decoding
+   them again is the identity, so whatever is encoded from decoded characters is valid UTF-8 *)
+From TW Require Import Utf8.
+
+Theorem C11_decoded_characters_are_scalar_values s : Forall scalar (runes s).
+Proof. exact (decoded_characters_are_scalars s). Qed.
+Print Assumptions C11_decoded_characters_are_scalar_values.
+
+Theorem C11_encode_then_decode_is_identity l : Forall scalar l -> runes (encode_runes l) = l.
+Proof. exact (runes_of_encoded l). Qed.
+Print Assumptions C11_encode_then_decode_is_identity.
+
+Theorem C11_character_results_are_valid_utf8 s i n :
+  utf8_valid (encode_runes (rev (runes s))) = true /\
+  utf8_valid (encode_runes [nth i (runes s) 0]) = true /\
+  utf8_valid (encode_runes (firstn n (runes s))) = true.
+Proof.
+  exact (conj (reverse_is_valid_utf8 s) (conj (character_at_is_valid_utf8 s i) (truncated_prefix_is_valid_utf8 s n))).
+Qed.
+Print Assumptions C11_character_results_are_valid_utf8.
